@@ -475,6 +475,26 @@ func famMeta(sh *Shards, n int, stats map[string]int) error {
 	emit("meta/repeated/good-then-bad", stream(2, 1, [][]byte{vb0, vbBad}, tails[1]))
 	emit("meta/repeated/bad-pal-good", stream(3, 1, [][]byte{vbBad, pal0, vb0}, tails[1]))
 	emit("meta/repeated/pal-short-then-pal", stream(2, 1, [][]byte{palChunk(3, 3, colorGen(3, 0), -1, 1), pal0}, tails[1]))
+	// well-formed viewBox / palette bodies under MIDs that are 0 or 1 modulo 2^16 or 2^8 (unknown MIDs all the same), and
+	// declared lengths that are right modulo 2^16 or 2^8 only
+	{
+		vbBody := []byte{0x80, 0x80, 0x82, 0x82} // 0 0 1 1
+		palBody := []byte{0x02, 0x7c, 0x30, 0x00}
+		for _, mid := range []uint32{256, 257, 65536, 65537, 5 << 16, 5<<16 + 1, 1 << 24, 1<<24 + 1} {
+			body := append(natBytes(mid, 4), vbBody...)
+			if mid%2 == 1 {
+				body = append(natBytes(mid, 4), palBody...)
+			}
+			ch := append(natBytes(uint32(len(body)), 1), body...)
+			emit(fmt.Sprintf("meta/mid-modulo/%d", mid), stream(1, 1, [][]byte{ch}, tails[1]))
+		}
+		for _, extra := range []uint32{256, 65536, 131072, 1 << 24} {
+			b1 := append([]byte{0x00}, vbBody...)
+			emit(fmt.Sprintf("meta/len-modulo/vb/%d", extra), stream(1, 1, [][]byte{append(natBytes(uint32(len(b1))+extra, 4), b1...)}, tails[1]))
+			b2 := append([]byte{0x02}, palBody...)
+			emit(fmt.Sprintf("meta/len-modulo/pal/%d", extra), stream(1, 1, [][]byte{append(natBytes(uint32(len(b2))+extra, 4), b2...)}, tails[1]))
+		}
+	}
 	// chunks whose declared length is tiny (0..5) while the MID is written in 1, 2 or 4 bytes (the length then cannot
 	// even hold the MID), for both kinds of chunk
 	for _, mw := range []int{1, 2, 4} {
@@ -567,6 +587,26 @@ func famAdversarial(sh *Shards, n int, stats map[string]int) error {
 		fl.cuts = len(b) < 80
 		nc, acc := traceDecode(sh.Next(), id, b, fl)
 		count(stats, "adversarial", nc, acc)
+	}
+	// arc flags naturals with reserved bits set (only the two low bits mean anything), in every width
+	for _, fv := range []uint32{4, 5, 6, 7, 8, 0x40, 0x41, 0x42, 0x7e, 0x1234, 0x1235, 0x3ffe, 1 << 20, 1<<20 + 1, 1<<29 + 2} {
+		for _, op := range []byte{0xc0, 0xd0, 0xc1} {
+			w := 1
+			if fv >= 128 {
+				w = 2
+			}
+			if fv >= 16384 {
+				w = 4
+			}
+			b := append(append([]byte{}, magic00...), 0xc0, 0x80, 0x80, op)
+			for rep := 0; rep <= int(op&1); rep++ {
+				b = append(b, 0x84, 0x86, 0x00)
+				b = append(b, natBytes(fv, w)...)
+				b = append(b, 0x88, 0x8a)
+			}
+			b = append(b, 0xe1)
+			emit(fmt.Sprintf("adv/arcflags/%d/%02x", fv, op), b)
+		}
 	}
 	f4 := func(u uint32) []byte { u |= 3; return []byte{byte(u), byte(u >> 8), byte(u >> 16), byte(u >> 24)} }
 	m := func(parts ...[]byte) []byte {
